@@ -172,8 +172,9 @@ def accessors(pool, rng):
         yield "u_vertices", (lambda u=u: u.vertices)
     for w in ws:
         yield "edge_whitelist", (lambda w=w: w.edge_whitelist)
-    keys = [(oracles.FORWARD, oracles.NEIGHBOR, None), (oracles.ANY, oracles.NEIGHBOR, zoo.f_tagged_edge),
-            (oracles.BACKWARD, oracles.NONNEIGHBOR, zoo.f_accept)]
+    # every direction x unknown-handling x {no filter, two filters}: fast paths live on particular combinations
+    keys = [(d, u, f) for d in (oracles.FORWARD, oracles.ANY, oracles.BACKWARD)
+            for u in (oracles.NEIGHBOR, oracles.NONNEIGHBOR) for f in (None, None, zoo.f_tagged_edge, zoo.f_accept)]
     for v in vs:
         d, u, f = rng.choice(keys)
         yield "neighbors", (lambda v=v, d=d, u=u, f=f: helpers.neighbors(v, d, u, f))
